@@ -18,7 +18,7 @@ REF_WEIGHTS = collections.OrderedDict([
   ('invalid', 1),
   # kinds of this module
   ('refupd', 14), ('refswitch', 4), ('unlink', 2), ('rmrecs_many', 3), ('refadd', 6),
-  ('dupupd', 0), ('replacedata', 0), ('bothsides', 0), ('metarm', 1), ('rmreferenced', 9),
+  ('dupupd', 0), ('replacedata', 0), ('bothsides', 0), ('metarm', 1), ('rmreferenced', 9), ('addrefformula', 5),
 ])
 
 
@@ -83,6 +83,13 @@ class RefGen(histgen.HistGen):
       a = self.gen('addreverse', histgen.Meta(e))
       if a:
         self._do(e, [a])
+    if r.random() < 0.6 and self.w.get('addrefformula', 0) > 0:
+      # data reference columns carrying a default / trigger formula, filled by new records
+      for _ in range(r.randint(1, 2)):
+        a = self.gen('addrefformula', histgen.Meta(e))
+        if a:
+          self._do(e, [a])
+          self._do(e, [['BulkAddRecord', a[1], [None] * r.randint(1, 3), {}]])
     return e
 
   # ---- the extra kinds
@@ -197,6 +204,33 @@ class RefGen(histgen.HistGen):
       if len(meta.user_tables()) >= 2:
         return ['BulkRemoveRecord', '_grist_Tables', [t['id']]]
       return None
+    if kind == 'addrefformula':
+      # a DATA Ref/RefList column that also carries a formula: a default formula (recalcWhen DEFAULT, no deps) or a
+      # trigger formula (DEFAULT with recalcDeps / NEVER / MANUAL_UPDATES); its cells are stored like any data cell
+      t = self.pick_table(meta)
+      if t is None:
+        return None
+      target = self.pick_table(meta)['tableId'] if r.random() < 0.8 else t['tableId']
+      cid = r.choice(['assignee', 'watchers', 'dflt', 'trig'])
+      is_list = r.random() < 0.5
+      if is_list:
+        f = r.choice(['[x.id for x in %s.all if x.id != $id][:2]' % target, '%s.lookupRecords(id=$id)' % target,
+                      '[x.id for x in %s.all][-2:]' % target])
+      else:
+        f = r.choice(['%s.lookupOne(id=$id)' % target, '%s.lookupOne(id=($id %% 3) + 1)' % target,
+                      'max([x.id for x in %s.all] or [0])' % target])
+      info = {'type': ('RefList:' if is_list else 'Ref:') + target, 'isFormula': False, 'formula': f}
+      mode = r.choice(['default', 'deps', 'never', 'manual'])
+      plain = [c for c in meta.data_cols(t['id']) if c['type'] in ('Text', 'Int')]
+      if mode == 'deps' and plain:
+        info['recalcWhen'] = 0
+        info['recalcDeps'] = ['L'] + [c['id'] for c in r.sample(plain, r.randint(1, min(2, len(plain))))]
+      elif mode == 'never':
+        info['recalcWhen'] = 1
+      elif mode == 'manual':
+        info['recalcWhen'] = 2
+      self.pend(t['tableId'], cid, 0)
+      return ['AddColumn', t['tableId'], cid, info]
     if kind == 'addref':
       t = self.pick_table(meta)
       if t is None:
